@@ -40,7 +40,7 @@ var tsiStub = []string{"disk: simfs pass-through on tmpfs (numbered events, cras
 func init() {
 	reg(&checkSpec{
 		ID: "C14", Harness: "tsi", Inst: tsiInst, Level: "fault_enumeration",
-		Classes: []string{"C14:", "deadlock", "busy-wait"},
+		Classes: []string{"C14:", "deadlock", "busy-wait", "crash", "panic"},
 		Cfgs: []cfgSpec{
 			{Name: "crash-single-client", Cfg: "clients=1,imgcap=8,cutden=30", Gating: true, Share: 3},
 			{Name: "crash-concurrent", Cfg: "clients=3,imgcap=6,cutden=50", Gating: true, Share: 2},
